@@ -676,8 +676,13 @@ class Watcher(object):
                 logger.debug('running %s process [pid %d]', self.name,
                              process.pid)
                 if not self.call_hook('after_spawn', pid=process.pid):
-                    self.kill_process(process)
-                    del self.processes[process.pid]
+                    # keep it in the table until the kill is over, signals are
+                    # only sent to the processes found there
+                    future = self.kill_process(process)
+
+                    def _forget(future, pid=process.pid):
+                        self.processes.pop(pid, None)
+                    self.loop.add_future(future, _forget)
                     return False
 
             # catch ValueError as well, as a misconfigured rlimit setting could
